@@ -117,17 +117,17 @@ type stepObs struct {
 }
 
 type runResult struct {
-	obs                     []stepObs
-	stats                   [][2]interface{} // name, value
-	stopped, terminated     bool
-	closes                  int
-	chanClosed              bool
-	uuids                   []string
-	payloads                [][]pm  // what each real batch holds (read from the batch, not from the producer)
-	batchTxns               [][]txe // GetTransactions of each real batch before it is handed over
-	sendCalls               int
-	afterCloseOK            bool // alive runs: closing inputChan led to a clean shutdown
-	infra                   string
+	obs                 []stepObs
+	stats               [][2]interface{} // name, value
+	stopped, terminated bool
+	closes              int
+	chanClosed          bool
+	uuids               []string
+	payloads            [][]pm  // what each real batch holds (read from the batch, not from the producer)
+	batchTxns           [][]txe // GetTransactions of each real batch before it is handed over
+	sendCalls           int
+	afterCloseOK        bool // alive runs: closing inputChan led to a clean shutdown
+	infra               string
 }
 
 const dummyUUID = "00000000-0000-0000-0000-000000000000"
@@ -559,6 +559,10 @@ func monitorAdd(cfg kcfg, msgs []kmsg, r addResult, cs interface{}) []core.Viola
 	bad := func(sig, what string) {
 		vs = append(vs, core.Violation{Property: "C14", Signature: "add/" + sig, What: what, Case: cs})
 	}
+	// the Kafka clauses of C15: message byte limit, batch record count, dropped-but-counted
+	bad15 := func(sig, what string) {
+		vs = append(vs, core.Violation{Property: "C15", Signature: "kafka/" + sig, What: what, Case: cs})
+	}
 	next := 0
 	counted := map[string]int{}
 	for i, m := range msgs {
@@ -578,6 +582,7 @@ func monitorAdd(cfg kcfg, msgs []kmsg, r addResult, cs interface{}) []core.Viola
 		case "ok":
 			if size > cfg.MaxBytes {
 				bad("size-rule", fmt.Sprintf("Add %d accepted a message of %d bytes above the limit %d", i, size, cfg.MaxBytes))
+				bad15("message-above-byte-limit", fmt.Sprintf("Add %d put a message of %d bytes (36 + key + value) into the batch, kafka-max-message-bytes is %d", i, size, cfg.MaxBytes))
 			}
 			counted[m.Tbk]++
 			if next >= len(r.produced) {
@@ -601,6 +606,7 @@ func monitorAdd(cfg kcfg, msgs []kmsg, r addResult, cs interface{}) []core.Viola
 		case "toobig":
 			if size <= cfg.MaxBytes {
 				bad("size-rule", fmt.Sprintf("Add %d dropped a message of %d bytes within the limit %d", i, size, cfg.MaxBytes))
+				bad15("dropped-within-byte-limit", fmt.Sprintf("Add %d dropped a message of %d bytes as too big, kafka-max-message-bytes is %d", i, size, cfg.MaxBytes))
 			}
 			counted[m.Tbk]++
 		case "full":
@@ -619,6 +625,12 @@ func monitorAdd(cfg kcfg, msgs []kmsg, r addResult, cs interface{}) []core.Viola
 	}
 	if cfg.MaxBatch >= 0 && len(r.produced) > cfg.MaxBatch {
 		bad("over-batch-size", fmt.Sprintf("payload holds %d messages, max batch size %d", len(r.produced), cfg.MaxBatch))
+		bad15("batch-above-record-count", fmt.Sprintf("payload holds %d messages, kafka-batch-size is %d", len(r.produced), cfg.MaxBatch))
+	}
+	for i, p := range r.produced {
+		if p.size > cfg.MaxBytes {
+			bad15("message-above-byte-limit", fmt.Sprintf("payload message %d measures %d bytes by sarama's ByteSize(2), kafka-max-message-bytes is %d", i, p.size, cfg.MaxBytes))
+		}
 	}
 	got := map[string]int{}
 	for _, t := range r.txns {
@@ -645,6 +657,7 @@ func monitorAdd(cfg kcfg, msgs []kmsg, r addResult, cs interface{}) []core.Viola
 	for _, k := range sorted {
 		if got[k] != counted[k] {
 			bad("count-conservation", fmt.Sprintf("delivery key %q: transactions count %d, Adds that returned ok or too-big %d", k, got[k], counted[k]))
+			bad15("dropped-record-not-counted", fmt.Sprintf("delivery key %q: transactions count %d, records accepted or dropped as too big %d", k, got[k], counted[k]))
 		}
 	}
 	if cfg.Method == "batch" && len(r.produced) > 0 && len(r.uuid) != 36 {
